@@ -21,7 +21,7 @@ from harness import paths_fs as P  # noqa: E402
 from harness import paths_worker as PW  # noqa: E402
 
 PROJECT = "paths"
-PROPS = ["Octave.Props.C19"]
+PROPS = ["Octave.Props.C19", "Octave.Props.C19fuel"]
 ANCHORS = [("octave_mcp/mcp/write.py", "WriteTool._validate_path"), ("octave_mcp/mcp/write.py", "WriteTool.execute"),
            ("octave_mcp/mcp/validate.py", "ValidateTool._validate_path"), ("octave_mcp/mcp/validate.py", "ValidateTool.execute"),
            ("octave_mcp/core/file_ops.py", "validate_octave_path"), ("octave_mcp/core/file_ops.py", "atomic_write_octave"),
@@ -137,6 +137,8 @@ def compare_paths(ctx, job, out, replies):
             m = rep[copy]
             if m == "fuel":
                 ctx.count("model_out_of_fuel")
+                ctx.corr_disagreements.append({"case": {"path": rec["p"], "tree": job["kind"], "tree_seed": job["seed"], "copy": copy},
+                                               "model": "fuel", "impl": [ok, reason], "view": "the model ran out of fuel (C19_fuel_driver says it cannot on a finite tree below the bound)"})
                 continue
             if ok == "raise":
                 ctx.count("impl_validator_raise")
@@ -645,15 +647,14 @@ def finish_meta(ctx):
                    "observation layer: sys.addaudithook events + lstat snapshots (CPython raises the events in C)",
                    "modelled, not verified: control flow of the three validators, posixpath.realpath, pathlib.exists/is_symlink/resolve (Model/Paths.lean)",
                    "OS semantics of Model/Paths.lean: lstat/stat/readlink of a static tree, NAME_MAX=255, ELOOP only on genuine cycles (chains < 40 links)"]
-    ctx.extra["open_proof_targets"] = ["fuel adequacy of rpWalk/kWalk for finite trees (driver uses 100000; exhaustion is reported, never observed)",
-                                       "C19_source_uri with the fixed-point test (Gen.sourceUriFixpoint = true): resolved path is link-free without the loop guard"]
+    ctx.extra["open_proof_targets"] = ["C19_source_uri with the fixed-point test (Gen.sourceUriFixpoint = true): resolved path is link-free without the loop guard"]
     ctx.extra["partial_clauses"] = ["C19_validate_sound_partial: guard noDangling (F29) unless the walk has the repaired shape",
                                     "C19_symlink_recheck_partial: guard `not dangling` unless the re-check is `is_symlink()` only",
                                     "C19_source_uri_partial: guard uriMeetsLoop = false (F60)",
                                     "time-of-check/time-of-use between validation and write is outside the model"]
     ctx.assumptions = ["the file system does not change between validation and use (time-of-check/time-of-use is outside the model)",
                        "H (SHA-256) is an arbitrary function in the theorems; the correspondence instantiates it with hashlib",
-                       "fuel: theorems hold for every fuel; the driver uses 100000 and reports exhaustion separately (never observed)"]
+                       "fuel: the walks are monotone in the fuel and never exhaust it from the computable bound fuelBoundR(links, path) on (Props/C19fuel: C19_fuel_walk_adequate, C19_fuel_validate_exact, C19_fuel_driver: the driver's 100000 is as good as infinity whenever the bound is below it); a model answer `fuel` is therefore a broken tie, reported as a disagreement"]
 
 
 def run_replay(ctx, proj, findings):
